@@ -239,7 +239,7 @@ class IoGenProblem(GenProblem):
                         costs[a] = self.em.Real(rng.choice([d for d in DECIMALS if d >= 0]))
                     else:
                         costs[a] = self.gen_num(1, list(a.parameters), ())
-            default = self.em.Int(rng.randint(0, 3)) if (len(costs) < len(self.actions) or rng.random() < 0.5) else None
+            default = self.em.Int(rng.randint(0, 3)) if (len(costs) < len(p.actions) or rng.random() < 0.5) else None
             m = MinimizeActionCosts(costs, default, environment=env)
         elif r < 0.7:
             m = MinimizeSequentialPlanLength(environment=env)
@@ -321,6 +321,22 @@ def key_through(get_item_named, lower=False):
 
 def key_lower(kind, item):
     return item.name.lower()
+
+
+_EXPANDERS = {}
+
+
+def canon(e):
+    """normal form used for STRUCTURAL comparisons (temporal structures): the Simplifier's normal form with every Iff
+    written as two implications -- both writers simplify what they print and PDDL has no iff"""
+    from unified_planning.model.walkers.identitydag import IdentityDagWalker
+    env = e.environment
+    if env not in _EXPANDERS:
+        class Expander(IdentityDagWalker):
+            def walk_iff(self, expression, args, **kwargs):
+                return self.manager.And(self.manager.Implies(args[0], args[1]), self.manager.Implies(args[1], args[0]))
+        _EXPANDERS[env] = Expander(env)
+    return _EXPANDERS[env].walk(e.simplify()).simplify()
 
 
 class IoSer:
@@ -431,8 +447,8 @@ class IoSer:
         """an effect with every expression simplified (temporal structures are compared structurally modulo the
         Simplifier, which both writers apply to every expression they print)"""
         e2 = e.clone()
-        e2.set_value(e.value.simplify())
-        e2.set_condition(e.condition.simplify())
+        e2.set_value(canon(e.value))
+        e2.set_condition(canon(e.condition))
         return self.effect(e2)
 
     def cond_parts(self, iv):
@@ -454,13 +470,13 @@ class IoSer:
         n = self.names
         n.set_params(a.parameters)
         d = a.duration
-        conds = [gpair(part, ser_expr(c.simplify(), n)) for iv, cl in a.conditions.items() for c in cl
+        conds = [gpair(part, ser_expr(canon(c), n)) for iv, cl in a.conditions.items() for c in cl
                  for part in self.cond_parts(iv) if not (self.split_intervals and c.simplify().is_true())]
         effs = [gpair(self.timing(t), self.seffect(e)) for t, el in a.effects.items() for e in el]
         if getattr(a, "continuous_effects", None):
             raise ValueError("continuous effects are outside the model")
         return ("{| da_sig := %s; da_dlo := %s; da_dhi := %s; da_dlopen := %s; da_dropen := %s; da_conds := %s; da_effs := %s |}" % (
-            glist([gn(n.ty(pp.type)) for pp in a.parameters]), ser_expr(d.lower.simplify(), n), ser_expr(d.upper.simplify(), n),
+            glist([gn(n.ty(pp.type)) for pp in a.parameters]), ser_expr(canon(d.lower), n), ser_expr(canon(d.upper), n),
             gbool(d.is_left_open()), gbool(d.is_right_open()), glist(conds), glist(effs)))
 
     @staticmethod
@@ -478,7 +494,7 @@ class IoSer:
         acts = glist([gpair(gn(n.act(a)), self.daction(a)) for a in self.dactions])
         n.set_params([])
         teffs = [gpair(self.timing(t), self.seffect(e)) for t, el in p.timed_effects.items() for e in el]
-        tgoals = [gpair(self.interval(iv), ser_expr(g.simplify(), n)) for iv, gl in p.timed_goals.items() for g in gl]
+        tgoals = [gpair(self.interval(iv), ser_expr(canon(g), n)) for iv, gl in p.timed_goals.items() for g in gl]
         return "{| ts_actions := %s; ts_teffs := %s; ts_tgoals := %s |}" % (acts, glist(teffs), glist(tgoals))
 
 
